@@ -198,8 +198,14 @@ pub struct GuardBuf {
     #[cfg(not(miri))]
     base: *mut u8,
     usable: usize,
-    #[cfg(miri)]
+    /// exact-size heap buffers instead of guard pages (Miri always; ASan stage via PCV_HEAPBUF=1,
+    /// where the sanitizer's red zones take the role of the guard pages)
     heap: Vec<u8>,
+    heap_mode: bool,
+}
+
+fn heap_mode_requested() -> bool {
+    cfg!(miri) || std::env::var("PCV_HEAPBUF").map(|v| v == "1").unwrap_or(false)
 }
 
 unsafe impl Send for GuardBuf {}
@@ -222,11 +228,11 @@ impl GuardBuf {
             let base = p as *mut u8;
             assert_eq!(sys::mprotect(base as *mut _, PAGE, sys::PROT_NONE), 0);
             assert_eq!(sys::mprotect(base.add(PAGE + usable) as *mut _, PAGE, sys::PROT_NONE), 0);
-            GuardBuf { base, usable }
+            GuardBuf { base, usable, heap: Vec::new(), heap_mode: heap_mode_requested() }
         }
         #[cfg(miri)]
         {
-            GuardBuf { usable, heap: Vec::new() }
+            GuardBuf { usable, heap: Vec::new(), heap_mode: true }
         }
     }
     pub fn usable(&self) -> usize {
@@ -235,27 +241,38 @@ impl GuardBuf {
     /// `len` bytes whose END is flush against the trailing guard page.
     pub fn tail(&mut self, len: usize) -> &mut [u8] {
         assert!(len <= self.usable);
+        if self.heap_mode {
+            // exact-size allocation: shrink_to_fit so that capacity == len
+            let mut v = vec![0u8; len];
+            v.shrink_to_fit();
+            self.heap = v;
+            return &mut self.heap[..];
+        }
         #[cfg(not(miri))]
         unsafe {
             std::slice::from_raw_parts_mut(self.base.add(PAGE + self.usable - len), len)
         }
         #[cfg(miri)]
         {
-            self.heap = vec![0u8; len];
-            &mut self.heap[..]
+            unreachable!()
         }
     }
     /// `len` bytes whose START is flush against the leading guard page.
     pub fn head(&mut self, len: usize) -> &mut [u8] {
         assert!(len <= self.usable);
+        if self.heap_mode {
+            let mut v = vec![0u8; len];
+            v.shrink_to_fit();
+            self.heap = v;
+            return &mut self.heap[..];
+        }
         #[cfg(not(miri))]
         unsafe {
             std::slice::from_raw_parts_mut(self.base.add(PAGE), len)
         }
         #[cfg(miri)]
         {
-            self.heap = vec![0u8; len];
-            &mut self.heap[..]
+            unreachable!()
         }
     }
     /// Copy `data` flush against the trailing (`at_tail`) or leading guard.
